@@ -98,22 +98,45 @@ thread_local! {
 type Rendered = (serde_json::Value, String);
 
 fn render(r: &Result<QueryReply, QueryError>) -> Rendered {
-    match r {
-        Ok(v) => (
-            serde_json::json!({"ok": serde_json::to_value(v).unwrap()}),
-            format!("{}", v),
-        ),
-        Err(e) => (
-            serde_json::json!({"err": serde_json::to_value(e).unwrap()}),
-            format!("ERR {}", e),
-        ),
+    // The text is what the CLI shows. The JSON form (what rink-js and the web
+    // frontend use) is compared too, but serialising it can panic inside
+    // rink-core for a non-finite float (`log2(0)`): that is a defect of another
+    // property, so here it only yields a marker that is the same for every
+    // context that panics in the same way.
+    let text = match r {
+        Ok(v) => format!("{}", v),
+        Err(e) => format!("ERR {}", e),
+    };
+    let json = std::panic::catch_unwind(std::panic::AssertUnwindSafe(|| match r {
+        Ok(v) => serde_json::json!({"ok": serde_json::to_value(v).unwrap()}),
+        Err(e) => serde_json::json!({"err": serde_json::to_value(e).unwrap()}),
+    }))
+    .unwrap_or_else(|_| serde_json::json!({ "json_serialisation_panicked": text }));
+    (json, text)
+}
+
+/// Equality of stored answers: floats by bit pattern (NaN is a value `ans`
+/// can hold, and NaN != NaN).
+fn same_number(a: &Option<Number>, b: &Option<Number>) -> bool {
+    use rink_core::types::Numeric;
+    match (a, b) {
+        (None, None) => true,
+        (Some(a), Some(b)) => {
+            a.unit == b.unit
+                && match (&a.value, &b.value) {
+                    (Numeric::Float(x), Numeric::Float(y)) => x.to_bits() == y.to_bits(),
+                    (x, y) => x == y,
+                }
+        }
+        _ => false,
     }
 }
 
 fn num_text(n: &Option<Number>) -> String {
     match n {
         None => "<none>".into(),
-        Some(n) => serde_json::to_string(n).unwrap_or_else(|_| "<number>".into()),
+        // Debug, not Serialize: serialising a non-finite float panics in rink-core.
+        Some(n) => format!("{:?} {:?}", n.value, n.unit),
     }
 }
 
@@ -127,6 +150,32 @@ fn short(s: &str) -> String {
     }
 }
 
+/// `rink_core::eval`, with a panic of the evaluator turned into a reply of its
+/// own kind. A panic is a defect of another property (totality); for this one
+/// it only matters that a fresh context panics in the same way.
+fn eval_catching(ctx: &mut Context, line: &str) -> (Option<Result<QueryReply, QueryError>>, Rendered) {
+    // Rendering is part of what every frontend does with a reply, and it can
+    // panic too (a non-finite float reaching BigRat::from(f64)).
+    let r = std::panic::catch_unwind(std::panic::AssertUnwindSafe(|| {
+        let r = rink_core::eval(ctx, line);
+        let rendered = render(&r);
+        (r, rendered)
+    }));
+    match r {
+        Ok((r, rendered)) => (Some(r), rendered),
+        Err(p) => {
+            let msg = if let Some(s) = p.downcast_ref::<String>() {
+                s.clone()
+            } else if let Some(s) = p.downcast_ref::<&'static str>() {
+                s.to_string()
+            } else {
+                "<panic>".to_string()
+            };
+            (None, (serde_json::json!({ "panic": msg }), format!("PANIC {}", msg)))
+        }
+    }
+}
+
 /// The frontend entry point on a context whose carried state is preset: this
 /// is "the reply a fresh context would give for the same previous answer"
 /// provided nothing but `ans`, flag and clock is carried by the context.
@@ -136,14 +185,14 @@ fn eval_preset(
     flag: bool,
     now: DateTime<Local>,
     line: &str,
-) -> Result<QueryReply, QueryError> {
+) -> Rendered {
     ctx.previous_result = alt.clone();
     ctx.save_previous_result = flag;
     ctx.use_humanize = true;
     Context::sim_set_clock(Some(now));
-    let r = rink_core::eval(ctx, line);
+    let (_, rendered) = eval_catching(ctx, line);
     Context::sim_set_clock(None);
-    r
+    rendered
 }
 
 /// What `ans` may hold after a query that was answered with `got`, given that
@@ -258,13 +307,13 @@ pub fn probe_main() -> i32 {
                 Ok(n) => n,
                 Err(()) => return 2,
             };
-            per_alt.push(render(&eval_preset(
+            per_alt.push(eval_preset(
                 &mut ctx,
                 &alt,
                 item.flag,
                 at(item.now_ms),
                 &item.line,
-            )));
+            ));
         }
         replies.push(per_alt);
     }
@@ -436,9 +485,17 @@ fn run_history(
                 Step::Query(line) => {
                     let now = at(now_ms);
                     Context::sim_set_clock(Some(now));
-                    let got = rink_core::eval(&mut live, line);
+                    let (got, (got_json, got_text)) = eval_catching(&mut live, line);
                     Context::sim_set_clock(None);
-                    let (got_json, got_text) = render(&got);
+                    let got = match got {
+                        Some(r) => r,
+                        None => {
+                            // The evaluator panicked: a totality defect (another
+                            // property). Here it counts as a failed query.
+                            bump("evaluator_panicked");
+                            Err(QueryError::generic(got_text.clone()))
+                        }
+                    };
                     digest.str(&got_text);
 
                     let mut iter = text_query::TokenIterator::new(line.trim()).peekable();
@@ -449,8 +506,7 @@ fn run_history(
                     let mut matched: Vec<(Option<Number>, bool)> = Vec::new();
                     let mut expected_texts = Vec::new();
                     for alt in &model {
-                        let want = eval_preset(reference, alt, flag, now, line);
-                        let (want_json, want_text) = render(&want);
+                        let (want_json, want_text) = eval_preset(reference, alt, flag, now, line);
                         if want_json == got_json && want_text == got_text {
                             matched.extend(after(alt, &got, flag, plain));
                         }
@@ -482,7 +538,7 @@ fn run_history(
                                 let mut p = fresh_context();
                                 model
                                     .iter()
-                                    .map(|alt| render(&eval_preset(&mut p, alt, flag, now, line)))
+                                    .map(|alt| eval_preset(&mut p, alt, flag, now, line))
                                     .collect()
                             }
                         };
@@ -552,12 +608,12 @@ fn run_history(
                     // dedupe
                     let mut next: Vec<Option<Number>> = Vec::new();
                     for m in matched {
-                        if !next.iter().any(|x| *x == m) {
+                        if !next.iter().any(|x| same_number(x, &m)) {
                             next.push(m);
                         }
                     }
                     // 1. the stored previous result must be one the model allows
-                    if !next.iter().any(|m| *m == live.previous_result) {
+                    if !next.iter().any(|m| same_number(m, &live.previous_result)) {
                         violation = Some(Violation {
                             clause: "ans-state-wrong".into(),
                             detail: format!(
@@ -572,7 +628,7 @@ fn run_history(
                         break;
                     }
                     // Narrow the model to what the context actually holds.
-                    next.retain(|m| *m == live.previous_result);
+                    next.retain(|m| same_number(m, &live.previous_result));
                     model = next;
                     if live.now != now {
                         violation = Some(Violation {
@@ -671,12 +727,12 @@ fn run_history(
                         let mut p = fresh_context();
                         questions
                             .iter()
-                            .map(|q| render(&eval_preset(&mut p, &None, false, at(when), q)))
+                            .map(|q| eval_preset(&mut p, &None, false, at(when), q))
                             .collect()
                     }
                 };
                 for (q, want) in questions.iter().zip(fresh.iter()) {
-                    let got = render(&eval_preset(&mut live, &None, false, at(when), q));
+                    let got = eval_preset(&mut live, &None, false, at(when), q);
                     if got != *want {
                         violation = Some(Violation {
                             clause: "database-changed".into(),
@@ -704,6 +760,8 @@ pub struct C15;
 fn uniq(rng: &mut Rng, i: usize) -> u64 {
     (i as u64 + 1) * 1000 + rng.below(900) + 1
 }
+
+include!(concat!(env!("OUT_DIR"), "/repo_queries.rs"));
 
 /// Questions put to a context whose dump differs from a pristine one.
 const BATTERY: [&str; 22] = [
@@ -738,7 +796,7 @@ const WORDS: [&str; 10] = [
     "kilogarm", "metre5", "feets", "asdfqwer", "secnod", "speed", "foot", "energy", "gold", "USD",
 ];
 
-fn gen_query(rng: &mut Rng, i: usize, weights: &[u64; 11]) -> String {
+fn gen_query(rng: &mut Rng, i: usize, weights: &[u64; 13]) -> String {
     let n = uniq(rng, i);
     let m = 2 + rng.below(17);
     match rng.weighted(weights) {
@@ -836,6 +894,18 @@ fn gen_query(rng: &mut Rng, i: usize, weights: &[u64; 11]) -> String {
         .to_string(),
         // things that look like `ans` but are not
         9 => (*rng.pick(&["answer", "ans_", "_ans", "Ans", "anshin", "__"])).to_string(),
+        // a query from the repository's own query tests, verbatim
+        11 if !REPO_QUERIES.is_empty() => (*rng.pick(REPO_QUERIES)).to_string(),
+        // ... or with `ans` put where its first number was
+        12 if !REPO_QUERIES.is_empty() => {
+            let q = *rng.pick(REPO_QUERIES);
+            let digits = q.chars().take_while(|c| c.is_ascii_digit() || *c == '.').count();
+            if digits > 0 {
+                format!("ans{}", &q[digits..])
+            } else {
+                format!("ans * ({})", q)
+            }
+        }
         // one shared identifier through different kinds of query
         _ => {
             let w = *rng.pick(&WORDS);
@@ -882,7 +952,7 @@ impl Harness for C15 {
     }
 
     fn generate(&self, rng: &mut Rng, tier: Tier, _index: u64) -> Scenario {
-        let mut weights = [5u64, 5, 3, 2, 1, 1, 2, 2, 3, 1, 4];
+        let mut weights = [5u64, 5, 3, 2, 1, 1, 2, 2, 3, 1, 4, 4, 2];
         for w in weights.iter_mut() {
             if rng.chance(1, 5) {
                 *w = 0;
@@ -1136,7 +1206,8 @@ impl Harness for C15 {
          save_previous_result. Queries come from a per-history weighted pool: plain numeric expressions with unique values, uses of ans/ANS/_ in every \
          operand position and as conversion source, conversions (unit, list, base, digits, temperature, currency, timezone), definition look-ups, units for / \
          factorize / search, substances, date results, results in seconds, failing queries of each error class, the empty line, names that merely \
-         resemble ans, and a small vocabulary of identifiers used through several query kinds. After every query the reply (JSON and text) is compared with \
+         resemble ans, a small vocabulary of identifiers used through several query kinds, and the ~200 queries of the repository's own core/tests/query.rs \
+         (verbatim, and with ans substituted for their first number). After every query the reply (JSON and text) is compared with \
          the reply of an in-process reference context driven through the same entry point with ans, flag and clock preset from a model of ans, and the \
          stored previous result, clock and settings are compared with the model; a disagreement is arbitrated by a brand-new process. In 3 histories of 4 a seeded \
          subset of the queries (each with probability 1/3, always the last) is evaluated in order by a brand-new OS process on one fresh context with ans preset, \
@@ -1195,8 +1266,16 @@ pub fn timing() {
     let t = std::time::Instant::now();
     let d = dump_hash(&mut ctx);
     println!("dump_hash {:?} {:?}", t.elapsed(), d);
+    for q in ["log2(0)", "log10(-1) m"] {
+        let r = rink_core::eval(&mut ctx, q);
+        let text = r.as_ref().map(|v| v.to_string()).unwrap_or_else(|e| e.to_string());
+        let json = std::panic::catch_unwind(std::panic::AssertUnwindSafe(|| {
+            serde_json::to_string(r.as_ref().unwrap()).unwrap()
+        }));
+        println!("{:?}: Display = {:?}; serde_json = {}", q, text, if json.is_ok() { "ok" } else { "PANICS" });
+    }
     let mut rng = Rng::new(1);
-    let w = [1u64; 11];
+    let w = [1u64; 13];
     let mut worst: Vec<(u128, String)> = Vec::new();
     for i in 0..3000 {
         let q = gen_query(&mut rng, i % 16, &w);
